@@ -1,6 +1,7 @@
 package main
 
 import (
+	"os"
 	"fmt"
 	"go/token"
 	"go/types"
@@ -82,6 +83,15 @@ func (ex *Exec) call(fr *Frame, cc *ssa.CallCommon, in ssa.Instruction, st *Stat
 			ex.note(ex.Abstr, "pure-func-field-call")
 			return mkRes("r_fn"), cur
 		}
+		if lg := ex.logFieldOf(cc.Value); lg != "" {
+			ex.note(ex.Abstr, "logged-func-field-call:"+lg)
+			if len(args) > 0 {
+				ex.logAppend(st, lg, ex.box(args[0], st))
+			} else {
+				ex.logAppend(st, lg, ex.W.zeroOfSort(ex.W.Iface))
+			}
+			return mkRes("r_fn"), cur
+		}
 		if fv.Tm != nil {
 			if r, ncur, ok := ex.indirectCall(fr, cc, in, fv, args, st, cur, resT, mkRes); ok {
 				return r, ncur
@@ -106,6 +116,10 @@ func (ex *Exec) callStatic(fr *Frame, callee *ssa.Function, cc *ssa.CallCommon, 
 		}
 	}
 	key := ex.Prog.FuncKey(callee)
+	if r, ok := ex.externAttrCall(externKey(callee), args, resT); ok {
+		// (a module function declared a fixed function of its arguments, e.g. a String method)
+		return r, cur
+	}
 	if r, ok := ex.tokenCall(fr, callee, cc, args, st, mkRes); ok {
 		return r, cur
 	}
@@ -116,6 +130,15 @@ func (ex *Exec) callStatic(fr *Frame, callee *ssa.Function, cc *ssa.CallCommon, 
 	var fc *FuncContract
 	if pc != nil {
 		fc = pc.Funcs[localKey(callee)]
+	}
+	if os.Getenv("GOVC_DEBUG_CALLS") != "" {
+		how := "havoc"
+		if fc != nil && hasSpec(fc) {
+			how = "contract"
+		} else if ex.canInline(callee, pc) {
+			how = "inline"
+		}
+		fmt.Fprintf(os.Stderr, "call %s%s: %s (assumes so far %d)\n", fr.prefix, key, how, len(ex.assumes))
 	}
 	if fc != nil && hasSpec(fc) {
 		return ex.contractCall(fr, callee, fc, pc, args, st, cur, in, mkRes)
@@ -807,9 +830,11 @@ func (ex *Exec) appendGeneric(st *State, k *HeapKey, arr, off, ln, cp, n *smt.Te
 	keep := c.Implies(c.Or(c.Lt(i, c.Add(off, ln)), c.Ge(i, c.Add(off, newLen))), c.Eq(c.Select(content, i), c.Select(old, i)))
 	ex.assume(c.Quant("forall", []*smt.Term{i}, keep, []*smt.Term{c.Select(content, i)}))
 	if elem != nil {
+		// (stated over the absolute index, so that any read of the new content triggers it)
 		j := c.Var("j!a", smt.Int)
-		set := c.Implies(c.And(c.Le(c.IntLit(0), j), c.Lt(j, n)), c.Eq(c.Select(content, c.Add(c.Add(off, ln), j)), elem(j)))
-		ex.assume(c.Quant("forall", []*smt.Term{j}, set, []*smt.Term{c.Select(content, c.Add(c.Add(off, ln), j))}))
+		base := c.Add(off, ln)
+		set := c.Implies(c.And(c.Le(base, j), c.Lt(j, c.Add(base, n))), c.Eq(c.Select(content, j), elem(c.Sub(j, base))))
+		ex.assume(c.Quant("forall", []*smt.Term{j}, set, []*smt.Term{c.Select(content, j)}))
 	}
 	st.heap[k.Name] = c.Store(h, rarr, content)
 	return Val{T: resT, Tm: ex.mkSlice(rarr, off, newLen, rcap)}
@@ -1334,6 +1359,36 @@ func (ex *Exec) ifaceContractCall(fr *Frame, cc *ssa.CallCommon, fc *FuncContrac
 	}
 	ex.note(ex.Abstr, "interface-contract:"+site)
 	return res, cur
+}
+
+// logFieldOf: the func value was loaded from a struct field declared `logfield Type.Field log`; returns the log name.
+func (ex *Exec) logFieldOf(v ssa.Value) string {
+	var st types.Type
+	var idx int
+	switch x := v.(type) {
+	case *ssa.UnOp:
+		fa, ok := x.X.(*ssa.FieldAddr)
+		if !ok {
+			return ""
+		}
+		st = fa.X.Type().Underlying().(*types.Pointer).Elem()
+		idx = fa.Field
+	case *ssa.Field:
+		st = x.X.Type()
+		idx = x.Field
+	default:
+		return ""
+	}
+	named, ok := st.(*types.Named)
+	if !ok || named.Obj().Pkg() == nil {
+		return ""
+	}
+	pc := ex.Prog.contracts[named.Obj().Pkg().Path()]
+	if pc == nil || pc.LogFields == nil {
+		return ""
+	}
+	fld := st.Underlying().(*types.Struct).Field(idx).Name()
+	return pc.LogFields[named.Obj().Name()+"."+fld]
 }
 
 // isPureField: the func value was loaded from a struct field declared `purefield Type.Field`.
